@@ -593,6 +593,12 @@ def gen_l1(rng, i):
     else:
         s = gen.make_system(rng, m=2, n=int(rng.integers(2, 5)), ubkind=["finite", "inf"][rng.integers(2)],
                             kkind=["none", "scalar", "vector"][rng.integers(3)])
+    if i % 5 == 3 and np.atleast_2d(s["A"]).shape[1] > np.atleast_2d(s["A"]).shape[0]:
+        # (only with a surplus source, so that the chromatic gamut stays full-dimensional)
+        # a degenerate source: switched off (lb == ub == 0), pinned (lb == ub > 0) or dark (excites no receptor): several
+        # combinations of bounds then give the same (possibly zero) capture
+        kinds = ["dark", "off", "pinned"] if np.all(np.isfinite(gen.sys_arrays(s)[3])) else ["dark"]
+        gen.degenerate_source(rng, s, kinds[rng.integers(len(kinds))])
     Mt, c0, lbv, ubv = gen.sys_arrays(_eff_system(s, rel))
     col = Mt.sum(axis=0)
     if np.all(np.isfinite(ubv)):
@@ -657,6 +663,8 @@ def chk_l1(inp, c):
     gclass = "bounded" if bounded else ("cone-from-origin" if origin_cone else "unbounded-offset-apex")
     c.cell("api=sample_in_gamut", "engine=" + _engine_name(eng), f"m={m}", f"n={n}", "l1=given", f"relative={rel}",
            "gamut=" + gclass, "gamut=bounded" if bounded else "gamut=unbounded", *gen.sys_cells(inp)[2:6])
+    if inp.get("degenerate"):
+        c.cell("degenerate-source=" + inp["degenerate"])
     # corner captures that span the chromatic gamut (unbounded: apex and the generator directions)
     if bounded:
         Pcorn = _corner_matrix(lbv, ubv) @ Mt.T + c0
@@ -671,6 +679,9 @@ def chk_l1(inp, c):
     if np.any(Pall < -1e-12 * scale) or np.any(Pall.sum(axis=1) <= 1e-9 * scale) or l1 <= 0:
         # captures with negative entries (matrix K): 'total capture (L1)' and the chromaticity diagram are not defined
         c.unmet("corner captures not non-negative (total capture / chromaticity undefined)")
+    Pn_ = Pcorn / Pcorn.sum(axis=1, keepdims=True)
+    if m > 2 and np.linalg.matrix_rank(Pn_[:, :-1] - Pn_[:, :-1].mean(0), tol=1e-9) < m - 1:
+        c.unmet("chromatic gamut not full-dimensional")
     est = c.call(gen.make_estimator, dreye, inp, _where="ReceptorEstimator+register_system")
     ok, res = c.try_call(lambda: _quiet(est.sample_in_gamut, n, seed=seed, engine=eng, l1=l1, relative=rel))
     if not ok:
